@@ -185,6 +185,11 @@ class FormulaMaterializer(metaclass=FormulaMaterializerMeta):
     ) -> Union[ModelMatrix, ModelMatrices]:
         from formulaic import ModelSpec
 
+        # The caches hold factors as evaluated (null rows scanned, transform
+        # state recorded) and encoded (rows dropped) for ONE build.
+        self.factor_cache = {}
+        self.encoded_cache = {}
+
         # Prepare ModelSpec(s)
         spec: Union[ModelSpec, ModelSpecs] = ModelSpec.from_spec(
             spec, context=self.layered_context, **spec_overrides
